@@ -1,7 +1,7 @@
 """C19 bounded run-time contract (labelled bounded): errors point at the offending node; a single fault is reported there.
 
 Valid generated documents x every single-node fault of a catalogue (bad text, extra child, extra attribute, dropped attribute, dropped
-child, misplaced child) applied at every node: the document is invalid; every error path selects exactly one node (evaluated with
+child, misplaced child, undeclared child at a strict wildcard position) applied at every node: the document is invalid; every error path selects exactly one node (evaluated with
 elementpath the way xmlschema does, and with ElementTree for position-only paths), namely error.elem; some error is located at the
 damaged node or its parent; none outside the damaged node's ancestor chain and subtree.
 """
@@ -10,7 +10,7 @@ from .common import pmap, result
 from .C01 import _cls
 from . import docgen
 NS = {'t': 'urn:t'}
-FAULTS = ('bad_text', 'extra_child', 'extra_attr', 'drop_attr', 'drop_child', 'swap_children')
+FAULTS = ('bad_text', 'extra_child', 'extra_attr', 'drop_attr', 'drop_child', 'swap_children', 'wild_child')
 _S = {}
 
 
@@ -37,6 +37,10 @@ def eval_doc(args):
             elif fault == 'drop_child':
                 if not len(t2) or not t2[0].tag.endswith('name'): continue
                 t2.remove(t2[0])
+            elif fault == 'wild_child':
+                # an element of another namespace at the position of the strict wildcard of item, without a declaration: the damaged node is that child
+                if not t2.tag.endswith('}item'): continue
+                t2.append(ET.Element('{urn:o}extra')); t2 = t2[-1]
             elif fault == 'swap_children':
                 if len(t2) < 2 or t2[0].tag == t2[1].tag: continue
                 a = t2[0]; t2.remove(a); t2.insert(1, a)
